@@ -752,8 +752,12 @@ func (e *Engine) invoke(st *State, fv FuncVal, args []Value, site ssa.Instructio
 		}
 	}
 	if h, ok := intrinsics[name]; ok {
-		e.res.Intrinsics[name]++
-		return h(e, st, &callCtx{args: args, site: site, ret: ret, fn: fn})
+		cc := &callCtx{args: args, site: site, ret: ret, fn: fn}
+		r := h(e, st, cc)
+		if !cc.declined {
+			e.res.Intrinsics[name]++
+			return r
+		}
 	}
 	if fn.Synthetic != "" && fn.Blocks == nil {
 		unsup("synthetic function without body: %s", name)
@@ -1271,6 +1275,18 @@ func (e *Engine) reportFinding(st *State, kind, label, site string) {
 	if e.findKey[key] {
 		return
 	}
+	// the path must be feasible under the real library functions (uninterpreted-function refinement)
+	pr := e.satRefined(st, nil)
+	if pr == "unsat" {
+		e.res.Discharged++
+		e.res.Intrinsics["<path refuted by UF refinement>"]++
+		return
+	}
+	var inputs map[string]any
+	if pr == "sat" {
+		inputs = e.modelFromCurrent(st)
+		e.sol.EndQuery()
+	}
 	e.res.Violated++
 	if len(e.res.Findings) >= e.maxFind {
 		return
@@ -1283,7 +1299,7 @@ func (e *Engine) reportFinding(st *State, kind, label, site string) {
 		tr = tr[len(tr)-24:]
 	}
 	f.Trace = append([]string(nil), tr...)
-	f.Inputs = e.model(st)
+	f.Inputs = inputs
 	if f.Inputs == nil {
 		f.Status = "no-model"
 		delete(e.findKey, key)
